@@ -178,14 +178,23 @@ extern "C" void c49_tree(void)
 #define RD 3
 #define WLEN 2
 #endif
-extern "C" void c49_sparse(void)
+// far == true: the offsets are F + d with F case-split over {0, 2^31, 3*2^30, 2^32, 2^32 + 2^31} and d symbolic in 0..5, so that the
+// differences between node offsets do not fit into 31 bits (a multi-GiB object with sparse ranges in memory)
+static int64_t farOffset(const char *what)
+{
+    static const int64_t F[5] = {0, int64_t(1) << 31, int64_t(3) << 30, int64_t(1) << 32, (int64_t(1) << 32) + (int64_t(1) << 31)};
+    const int64_t d = (int64_t)vf_nondet_u8(what); vf_assume(d >= 0 && d <= 5);
+    return F[pick(5, "far")] + d;
+}
+static void sparse(const bool far)
 {
     vf_quiet();
     static mem_hdr hdr;
     const int64_t LIM = 3 * PAGE + 8;
     int64_t off[NW]; int len[NW]; uint8_t data[NW][WLEN];
     for (int i = 0; i < NW; ++i) {
-        off[i] = (int64_t)vf_nondet_u16("offset"); vf_assume(off[i] >= 0 && off[i] <= LIM);
+        if (far) off[i] = farOffset("offset");
+        else { off[i] = (int64_t)vf_nondet_u16("offset"); vf_assume(off[i] >= 0 && off[i] <= LIM); }
         len[i] = 1 + (int)pick(WLEN, "len");
         for (int j = 0; j < i; ++j) vf_assume(off[i] + len[i] <= off[j] || off[j] + len[j] <= off[i]); // non-overlapping
         for (int k = 0; k < len[i]; ++k) data[i][k] = vf_nondet_u8("data");
@@ -194,7 +203,9 @@ extern "C" void c49_sparse(void)
     // reference: byte q is in memory iff some write covers it and it is not below the cut reported by freeDataUpto()
     int64_t cut = 0;
     if (vf_bool("release")) {
-        const int64_t t = (int64_t)vf_nondet_u16("upto"); vf_assume(t >= 0 && t <= LIM + 8);
+        int64_t t;
+        if (far) t = farOffset("upto");
+        else { t = (int64_t)vf_nondet_u16("upto"); vf_assume(t >= 0 && t <= LIM + 8); }
         cut = hdr.freeDataUpto(t);
         bool cutIsWritten = false;
         for (int i = 0; i < NW; ++i) {
@@ -204,7 +215,9 @@ extern "C" void c49_sparse(void)
         vf_assert(cutIsWritten, "freeDataUpto() returns the offset of a written range");
         vf_reach("released-or-kept");
     }
-    const int64_t q = (int64_t)vf_nondet_u16("probe"); vf_assume(q >= 0 && q <= LIM + 8);
+    int64_t q;
+    if (far) q = farOffset("probe");
+    else { q = (int64_t)vf_nondet_u16("probe"); vf_assume(q >= 0 && q <= LIM + 8); }
     // run of present bytes starting at q (at most RD)
     int run = 0; bool open = true; uint8_t expect[RD];
     for (int j = 0; j < RD; ++j) {
@@ -227,3 +240,5 @@ extern "C" void c49_sparse(void)
     vf_observe("run", run);
     WITNESS_POINT();
 }
+extern "C" void c49_sparse(void) { sparse(false); }
+extern "C" void c49_far(void) { sparse(true); }
